@@ -244,6 +244,20 @@ func (p *c03) RunCase(ctx *runner.Ctx) runner.CaseResult {
 			d := ixDefs["gsi4"]
 			op = adapt.Op{Kind: adapt.OpUpdateTable, Table: spec.Name, Chg: []adapt.IndexChange{{Create: &d}}}
 			created["gsi4"] = true
+		case (k == 12 || k == 13) && late && len(existing()) == 0 && !created["twin"] && len(ixTypes) == 0:
+			// "legacy" items, written while the table has no index at all: their g or s has ANOTHER type than the
+			// indexes created later declare. A back-fill leaves them out (they cannot be indexed) - them and nothing
+			// else. They live in a partition of their own that no later write addresses.
+			it := ixItem("legacy", fmt.Sprint("lg", i), "x", "1", i)
+			switch r.Intn(3) {
+			case 0:
+				it["g"] = val.Num("5")
+			case 1:
+				it["s"] = val.Bool(true)
+			default:
+				it["g"], it["s"] = val.Bin("x"), val.Num("1")
+			}
+			op = adapt.Op{Kind: adapt.OpPut, Table: spec.Name, Item: it}
 		case (k == 10 || k == 11) && len(existing()) > 0 && !created["twin"]:
 			// a second index over exactly the key attributes of a live one, under another name (how one changes a
 			// projection): from now on both must follow every write independently
